@@ -21,7 +21,7 @@ ASSUMPTIONS = [
 ]
 BUDGET = {"quick": 3000, "thorough": 80000}
 TIME_CAP = {"quick": 75, "thorough": 1500}
-PROFILE = {"p_function": 0.6, "p_limits": 0.5, "p_yfactor": 0.5, "p_output_pars": 0.7, "p_time_varying": 0.6, "p_interaction": 0.6, "max_steps": 16, "extreme": 0.05, "p_timed": 0.3, "p_junction": 0.3, "allow_negative_functions": True, "comp_yfactor": 0.3}
+PROFILE = {"p_function": 0.6, "p_limits": 0.5, "p_yfactor": 0.5, "p_output_pars": 0.7, "p_time_varying": 0.6, "p_interaction": 0.6, "max_steps": 16, "extreme": 0.05, "p_timed": 0.3, "p_junction": 0.3, "allow_negative_functions": True, "comp_yfactor": 0.3, "p_deriv": 0.15, "p_agg_transition": 0.15}
 
 
 @st.composite
@@ -29,7 +29,7 @@ def cases(draw, prof):
     spec = draw(gen_model.model_specs(prof))
     scen = None
     if draw(st.booleans()):
-        cands = [p["name"] for p in spec["pars"] if not p["timed"] and not (p.get("fn") or "").startswith(("SRC_", "TGT_"))]
+        cands = [p["name"] for p in spec["pars"] if not p["timed"] and not p.get("deriv") and not (p.get("fn") or "").startswith(("SRC_", "TGT_"))]
         trans = [(tr["name"], k) for tr in spec["data"]["tr"] for k in tr["e"]]
         s0, dt = spec["settings"]["start"], spec["settings"]["dt"]
         nsteps = max(1, int(round((spec["settings"]["end"] - s0) / dt)))
@@ -162,9 +162,36 @@ def check(case):
                 kind = "transfer"
             agg = fn is not None and fn.startswith(("SRC_POP_", "TGT_POP_"))
             scen_start = min(ov["t"]) if ov else None
+            deriv = kind == "data" and bool(pspec[name].get("deriv"))
             for ti in range(T):
                 stages = 0
-                if ov is not None and t[ti] >= scen_start:
+                if deriv:
+                    # forward Euler: value(t0) = databook value x factors; value(t+dt) = clip(value(t) + dt * factor * f(same-step values at t))
+                    if ti == 0:
+                        v = datainterp.series_value(dentry, t[0]) * f
+                        src = "derivative-initial"
+                    else:
+                        tj = ti - 1
+                        env = {"t": t[tj], "dt": dt}
+                        for nm in expr.names(fn):
+                            if nm in ("t", "dt"):
+                                continue
+                            found = False
+                            for c in pop.comps:
+                                if c.name == nm:
+                                    env[nm] = float(cv[c][tj]); found = True
+                            for x in pop.characs:
+                                if x.name == nm:
+                                    env[nm] = float(xv[x][tj]); found = True
+                            for pp in pop.pars:
+                                if pp.name == nm:
+                                    env[nm] = float(pv[pp][tj]); found = True
+                            if not found:
+                                raise HarnessError("dependency %s of %s not found" % (nm, name))
+                        v = float(got[tj]) + dt * f * expr.evaluate(fn, env)
+                        src = "derivative-step"
+                        stages += 2
+                elif ov is not None and t[ti] >= scen_start:
                     v = scen_value(ov, t[ti], scen["interp"]) * f
                     src = "scenario"
                     stages += 2 if fn else 1
